@@ -1,4 +1,4 @@
-CONSTANTS MaxSteps = 3  MaxInserts = 1  Mode = "model"  Cases <- ModelCasesT
+CONSTANTS MaxSteps = 2  MaxInserts = 1  Mode = "model"  Cases <- ModelCasesT
 SPECIFICATION MSpec
 INVARIANTS FreshlySignedValid ReportedIsCurrent UnknownNeverValid CommitmentTable
 CHECK_DEADLOCK FALSE
